@@ -45,3 +45,7 @@ def run(ctx):
 
     c12.triangle(ctx)
     c12.gauss(ctx)
+    # which pairs the singular rule treats, and with which shared local vertices / edges, comes from the grid's adjacency tables
+    from . import c11
+
+    c11.adjacency(ctx)
